@@ -159,22 +159,23 @@ C06S = FMT + ROUND
 
 CHECKS["C06"] = {
     "title": "opaque U-values follow EN ISO 6946, 13370 and 13789",
-    "outside": ["numeric value of ln (uninterpreted)", "tolerance statements for arbitrary reals: the mirror oracle pins formula, constants, branch structure and operand order, not conditioning",
+    "outside": ["QUICK TIER: only the numeric kernels (layer resistance, air-contact U, partition formula) and monotonicity are decided; the ground-contact kernels and every dispatch harness through Wall::u_value(&Model) (which surface resistance / which space / which kernel) are registered in the thorough tier only: measured 8-25 min or out of memory at 40 GB each",
+                "numeric value of ln (uninterpreted)", "tolerance statements for arbitrary reals: the mirror oracle pins formula, constants, branch structure and operand order, not conditioning",
                 "stacks deeper than 3 layers", "unconditioned spaces with more than 2 bounding exterior elements", "U of partitions between equally conditioned spaces with a neighbour (the statement does not define it): only 'has a value' is asserted"],
     "harnesses": [
         {"name": "c06::u_resistance", "bound": "0..3 layers, each detailed (lambda in {0.035,0.4,1.0,2.3} or <= 0), resistance-only (R in {k/4, k<=15}) or with a missing material; thickness in {k/16, k<=15}", "kani_args": NOOVF, "cbmc_args": FS, "stubs": FMT, "functions": ["WallCons::resistance", "ConsDb::get_material"]},
         {"name": "c06::u_exterior_kernel", "bound": "tilt in {0,60,90,120,180,300}, R in {k/8, k<=63} or None", "kani_args": NOOVF, "cbmc_args": FS, "stubs": C06S, "functions": ["Wall::u_value_exterior", "Tilt::from", "fround2"]},
         {"name": "c06::u_interior_kernel", "bound": "Ai in {(k+1)/2}, Rf in {k/4}, UA in {k/2}, q in {2k}, k<=15", "kani_args": NOOVF, "cbmc_args": FS, "stubs": C06S, "functions": ["Wall::u_value_interior_cond_uncond"]},
-        {"name": "c06::u_gnd_slab_kernel", "bound": "z in {k/2,k<=7}, d_t in {(k+1)/4}, B' in {(k+1)/2}, k<=15, psi in {-k/8,k<=7}", "kani_args": NOOVF, "cbmc_args": FS, "stubs": C06S + LN, "functions": ["Wall::u_value_gnd_slab"]},
-        {"name": "c06::u_gnd_wall_kernel", "bound": "z in {k/2,k<=7}, U_w, d_t in {(k+1)/4,k<=15}, h in {(k+1)/2,k<=7}", "kani_args": NOOVF, "cbmc_args": FS, "stubs": C06S + LN, "functions": ["Wall::u_value_gnd_wall"]},
-        {"name": "c06::u_gnd_dt_psi", "bound": "1 ground slab of side 1..4 (+2 decoy floors), slab resistance in {k/4,k<=15}, construction present/absent, Rn in {k/2,k<=7}, D in {k/4,k<=7}, d_t in {(k+1)/4}", "kani_args": NOOVF, "cbmc_args": FS, "stubs": C06S + LN, "functions": ["Space::slab_d_t", "Space::slab_psi_gnd_ext"]},
-        {"name": "c06::dispatch::u_dispatch_air", "bound": "concrete construction (R=1.75); symbolic: 4 boundary kinds x tilt {0,90,180} x construction/material present x lambda > 0", "kani_args": NOOVF, "cbmc_args": FS, "stubs": C06S, "functions": ["Wall::u_value", "WallCons::resistance", "Wall::u_value_exterior"]},
-        {"name": "c06::dispatch::u_dispatch_partition", "bound": "concrete geometry; symbolic: 3x3 space kinds, tilt {0,90,180}, neighbour none/valid/dangling, per-space n_v present or not, building ventilation present or not", "kani_args": NOOVF, "cbmc_args": FS, "stubs": C06S, "timeout_quick": 900,
+        {"name": "c06::u_gnd_slab_kernel", "tier": "thorough", "timeout_thorough": 2700, "bound": "z in {k/2,k<=7}, d_t in {(k+1)/4}, B' in {(k+1)/2}, k<=15, psi in {-k/8,k<=7}", "kani_args": NOOVF, "cbmc_args": FS, "stubs": C06S + LN, "functions": ["Wall::u_value_gnd_slab"]},
+        {"name": "c06::u_gnd_wall_kernel", "tier": "thorough", "timeout_thorough": 2700, "bound": "z in {k/2,k<=7}, U_w, d_t in {(k+1)/4,k<=15}, h in {(k+1)/2,k<=7}", "kani_args": NOOVF, "cbmc_args": FS, "stubs": C06S + LN, "functions": ["Wall::u_value_gnd_wall"]},
+        {"name": "c06::u_gnd_dt_psi", "tier": "thorough", "timeout_thorough": 2700, "bound": "1 ground slab of side 1..4 (+2 decoy floors), slab resistance in {k/4,k<=15}, construction present/absent, Rn in {k/2,k<=7}, D in {k/4,k<=7}, d_t in {(k+1)/4}", "kani_args": NOOVF, "cbmc_args": FS, "stubs": C06S + LN, "functions": ["Space::slab_d_t", "Space::slab_psi_gnd_ext"]},
+        {"name": "c06::dispatch::u_dispatch_air", "tier": "thorough", "timeout_thorough": 2700, "mem_gb": 40, "bound": "concrete construction (R=1.75); symbolic: 4 boundary kinds x tilt {0,90,180} x construction/material present x lambda > 0", "kani_args": NOOVF, "cbmc_args": FS, "stubs": C06S, "functions": ["Wall::u_value", "WallCons::resistance", "Wall::u_value_exterior"]},
+        {"name": "c06::dispatch::u_dispatch_partition", "tier": "thorough", "timeout_thorough": 2700, "mem_gb": 40, "bound": "concrete geometry; symbolic: 3x3 space kinds, tilt {0,90,180}, neighbour none/valid/dangling, per-space n_v present or not, building ventilation present or not", "kani_args": NOOVF, "cbmc_args": FS, "stubs": C06S, "timeout_quick": 1500,
          "functions": ["Wall::u_value", "Space::ua_of_external_and_ground_surfaces", "Model::global_ventilation_rate", "Space::area", "Space::height_net", "Wall::u_value_interior_cond_uncond"]},
-        {"name": "c06::dispatch::u_ua_sum", "bound": "1 roof + 1 side element (4 boundary kinds, own/adjacent side, construction present or not) + 0..1 window (construction present or not)", "kani_args": NOOVF, "cbmc_args": FS, "stubs": C06S, "functions": ["Space::ua_of_external_and_ground_surfaces", "Wall::area_net", "WinCons::u_value"]},
-        {"name": "c06::dispatch::u_dispatch_ground", "bound": "tilt {0,90,180}, space z in {-3..1}, space present or not, ground slab present or not", "kani_args": NOOVF, "cbmc_args": FS, "stubs": C06S + LN, "timeout_quick": 900,
+        {"name": "c06::dispatch::u_ua_sum", "tier": "thorough", "timeout_thorough": 2700, "mem_gb": 40, "bound": "1 roof + 1 side element (4 boundary kinds, own/adjacent side, construction present or not) + 0..1 window (construction present or not)", "kani_args": NOOVF, "cbmc_args": FS, "stubs": C06S, "functions": ["Space::ua_of_external_and_ground_surfaces", "Wall::area_net", "WinCons::u_value"]},
+        {"name": "c06::dispatch::u_dispatch_ground", "tier": "thorough", "timeout_thorough": 2700, "mem_gb": 40, "bound": "tilt {0,90,180}, space z in {-3..1}, space present or not, ground slab present or not", "kani_args": NOOVF, "cbmc_args": FS, "stubs": C06S + LN, "timeout_quick": 900,
          "functions": ["Wall::u_value", "Space::slab_d_t", "Space::slab_psi_gnd_ext", "Space::slab_char_dim", "Wall::u_value_gnd_slab", "Wall::u_value_gnd_wall"]},
-        {"name": "c06::dispatch::u_char_dim", "bound": "floor 4x5, two side walls with 4 boundary kinds each, 3x3 space kinds, neighbour none/valid/dangling", "kani_args": NOOVF, "cbmc_args": FS, "stubs": C06S, "functions": ["Space::slab_char_dim"]},
+        {"name": "c06::dispatch::u_char_dim", "tier": "thorough", "timeout_thorough": 2700, "mem_gb": 40, "bound": "floor 4x5, two side walls with 4 boundary kinds each, 3x3 space kinds, neighbour none/valid/dangling", "kani_args": NOOVF, "cbmc_args": FS, "stubs": C06S, "functions": ["Space::slab_char_dim"]},
         {"name": "c06::dispatch::u_monotone", "bound": "thickness k/8, R k/4, lambda in {0.4,1.0,2.3}, tilt {0,90,180}, exterior or partition without neighbour", "kani_args": NOOVF, "cbmc_args": FS, "stubs": C06S, "functions": ["Wall::u_value"]},
     ],
 }
@@ -209,27 +210,25 @@ CHECKS["C17"]["harnesses"] += [
 CHECKS["C17"]["outside"] = ["schedules_from_bdl itself (string-keyed IdMaps): only its date arithmetic is decided", "schedule expansion in the quick tier: SchedulesDb::get_year_as_day_sch / ScheduleWeek::to_day_sch (flat_map over vec![id; n]) need 540 s of symbolic execution for ONE weekly schedule with concrete run lengths; registered in the thorough tier only", "yearly occupied time and mean internal load", "symbolic period and run lengths (vectors of symbolic length exhaust the solver): the lengths are the concrete ones listed per harness"]
 
 CHECKS["C14"] = {
-    "title": "indicator computation is total",
-    "outside": ["lock poisoning / 'a failure never affects later computations' (no threads or unwinding under Kani)", "JSON serialise/parse of the result", "compute_fshobst (stubbed here; its ray casting is decided under C12/C13)", "models beyond the stated sizes"],
+    "title": "indicator computation is total (partial)",
+    "outside": ["schedules of inconsistent length / dangling schedule ids (props.rs sch_day[ds], s[day_idx], get(id).unwrap()): schedule expansion is not tractable (see C17); seen by reading, not decided",
+                "empty collections and optional elements as a symbolic choice (symbolic vector lengths): element counts are concrete here",
+                "lock poisoning / 'a failure never affects later computations' (no threads or unwinding under Kani)", "JSON serialise/parse of the result", "compute_fshobst (stubbed; its ray casting is decided under C12/C13; the empty obstacle set under C13 bvh_leaf0)", "finiteness of q_sol;jul without windows is decided under C10, of the ventilation rate under C11"],
     "harnesses": [
-        {"name": "c14::props_total_links", "bound": "0..1 space, 0..1 wall (space link valid/nil/absent, neighbour none/valid/absent, triangle polygon, 4 boundary kinds, 3 tilts), 0..1 window (wall valid/absent, sizes in {-1..2}), 0..1 bridge", "kani_args": NOOVF, "cbmc_args": FS, "stubs": FMT + ROUND + FSH, "timeout_quick": 1500,
-         "unwindset": [[r"c14::table", 10], [r"kani_models::HashMap.*::pos", 10]],
-         "functions": ["EnergyProps::from(&Model)", "KData::from", "N50Data::from", "QSolJulData::from"]},
-        {"name": "c14::props_total_links_nopoly", "bound": "same with an empty polygon", "kani_args": NOOVF, "cbmc_args": FS, "stubs": FMT + ROUND + FSH, "timeout_quick": 1500,
-         "unwindset": [[r"c14::table", 10], [r"kani_models::HashMap.*::pos", 10]], "functions": ["EnergyProps::from(&Model)", "KData::from", "N50Data::from", "QSolJulData::from"]},
-        {"name": "c14::props_total_links_degenerate", "tier": "thorough", "bound": "same with a two-vertex polygon", "kani_args": NOOVF, "cbmc_args": FS, "stubs": FMT + ROUND + FSH,
-         "unwindset": [[r"c14::table", 10], [r"kani_models::HashMap.*::pos", 10]], "functions": ["EnergyProps::from(&Model)"]},
-        {"name": "c14::props_total_schedules", "bound": "2 occupied spaces, loads with present/absent/dangling yearly schedules of 0..2 days, weekly schedule pointing to a present or absent daily schedule of 0 or 2 values", "kani_args": NOOVF, "cbmc_args": FS, "stubs": FMT + ROUND + FSH, "timeout_quick": 1500,
-         "functions": ["EnergyProps::from(&Model)", "SchedulesDb::get_year_as_day_sch"]},
+        {"name": "c14::props_total_dangling", "bound": "1 space (3 kinds, inside/outside), 1 triangular wall (space link valid/nil/absent, neighbour none/valid/absent, 4 boundary kinds, 3 tilts, construction absent), 1 window (wall valid/absent, sizes in {-1..2}, construction absent), 1 bridge (l, psi in {-1,0,1})",
+         "kani_args": NOOVF, "cbmc_args": FS, "stubs": FMT + ROUND + FSH, "timeout_quick": 1200, "mem_gb": 40,
+         "functions": ["EnergyProps::from(&Model)", "KData::from", "N50Data::from"]},
     ],
 }
 
-CHECKS["C12"] = {
+UNREGISTERED["C12"] = {
     "title": "obstruction factors: sunlit fraction of horizontal scenes (partial)",
     "outside": ["the obstruction factor itself (irradiance weighting over the 14 July design hours, >= 0.97 for unobstructed windows)", "every non-horizontal geometry (rotation matrices need sin/cos)", "sample grids of 25..100 origins (2 origins here)", "reveal shades generated from setback (ids are md5 of formatted text)"],
     "harnesses": [
-        {"name": "c12::sunlit_fraction_horizontal", "bound": "horizontal wall (tilt 0, azimuth 0) with one window, 0..2 horizontal obstacles 2x2 at integer positions in [-2,3]^2 x {1,2,3} (free / carrying the wall's id / linked to another window / linked to this window), 2 ray origins, sun direction in {-1,0,1}^3 minus 0; wall present or not, position present or not",
-         "kani_args": NOOVF, "cbmc_args": FS, "stubs": FMT, "timeout_quick": 1500, "functions": ["Model::sunlit_fraction", "BVH::build", "BVH::intersects", "<&Occluder as Intersectable>::intersects", "Ray::intersects_with_data", "WallGeom::normal"]},
+        {"name": "c12::sunlit_fraction_missing", "bound": "wall present or not, position present or not, sun in front or behind, no obstacles, 1 ray origin", "kani_args": NOOVF, "cbmc_args": FS, "stubs": FMT, "timeout_quick": 900,
+         "functions": ["Model::sunlit_fraction", "BVH::build", "WallGeom::normal"]},
+        {"name": "c12::sunlit_fraction_horizontal", "bound": "horizontal wall (tilt 0, azimuth 0) with one window, 2 horizontal obstacles 2x2 at integer positions in [-2,3]^2 x {1,2,3} (free / carrying the wall's id / linked to another window / linked to this window), 2 ray origins, sun direction in {-1,0,1}^3 minus 0",
+         "kani_args": NOOVF, "cbmc_args": FS, "stubs": FMT, "timeout_quick": 900, "mem_gb": 40, "functions": ["Model::sunlit_fraction", "BVH::build", "BVH::intersects", "<&Occluder as Intersectable>::intersects", "Ray::intersects_with_data", "WallGeom::normal"]},
     ],
 }
 
